@@ -43,12 +43,12 @@ def textsOf : List Xml → List String
   | _ :: cs => textsOf cs
 
 /-- `char_data`: the character data of an element — all of its text, also behind a comment or a processing
-instruction (which `Node::text` would stop at; fix F18); `none` if it has no text at all -/
+instruction (which `Node::text` would stop at; fix F18); `none` if it has no text at all — an empty text node (an
+empty CDATA section) is no text either (fix F20) -/
 def text? : Xml → Option String
   | .elem _ _ cs =>
-    match textsOf cs with
-    | [] => none
-    | t :: ts => some (ts.foldl (· ++ ·) t)
+    let d := (textsOf cs).foldl (· ++ ·) ""
+    if d.toList.isEmpty then none else some d
   | .text s => some s
   | .other => none
 
